@@ -81,6 +81,7 @@ pzgstrf_factor_snode(
     /*
      * Factorize the relaxed supernode (jcol:kcol-1)
      */
+    SLU_MT_VEV(VE_RACY_READ, pnum, 1, &Glu->nextu);
     nextu        = Glu->nextu; /* xiaoye - race condition (no problem!) */
     jsupno       = supno[jcol];
     fsupc        = xsup[jsupno];
